@@ -93,6 +93,7 @@ type c07Engine struct {
 	tblMemo   map[ssa.Value]c07Table
 	fieldImm  map[FieldID]bool
 	remLinear bool
+	ignoreDep ssa.Value
 	predDepth int
 	predMemo  map[string]c07B
 	flows     map[c07flowKey]map[*ssa.BasicBlock]c07B
@@ -2152,6 +2153,9 @@ func (e *c07Engine) opaqueGuards(fn *ssa.Function, at *ssa.BasicBlock, root ssa.
 		}
 		if !c07Depends(ifi.Cond, root, 5) {
 			continue
+		}
+		if e.ignoreDep != nil && c07Depends(ifi.Cond, e.ignoreDep, 5) {
+			continue // a test of the result of a call the rule has summarised itself
 		}
 		understood := false
 		// a materialised && / || chain: phi of constants and comparisons of the subject
